@@ -1160,7 +1160,7 @@ impl Prop for C13 {
     }
     fn cases(&self, tier: Tier) -> u64 {
         match tier {
-            Tier::Quick => 1500,
+            Tier::Quick => 8000,
             Tier::Thorough => 60_000,
         }
     }
